@@ -1,10 +1,14 @@
 package packet
 
 import (
+	"fmt"
 	protoutil "go.minekube.com/gate/pkg/edition/java/proto/util"
 	"go.minekube.com/gate/pkg/gate/proto"
 	"io"
 )
+
+// maxReportDetailsPreAlloc bounds the map pre-allocation for a count read from the wire.
+const maxReportDetailsPreAlloc = 32
 
 type CustomReportDetails struct {
 	Details map[string]string
@@ -24,7 +28,11 @@ func (p *CustomReportDetails) Decode(c *proto.PacketContext, rd io.Reader) (err 
 	r := protoutil.PanicReader(rd)
 	var detailsCount int
 	r.VarInt(&detailsCount)
-	p.Details = make(map[string]string, min(detailsCount, protoutil.MaxPreAllocSize))
+	if detailsCount < 0 {
+		return fmt.Errorf("got a negative-length details map (%d)", detailsCount)
+	}
+	// vanilla sends at most 32 details; a larger count still decodes, the map just grows
+	p.Details = make(map[string]string, min(detailsCount, maxReportDetailsPreAlloc))
 	for i := 0; i < detailsCount; i++ {
 		var key, value string
 		r.String(&key)
